@@ -33,9 +33,10 @@ Lemma release_k_held s k hp :
 Proof. unfold release; cbn. intros -> ->. reflexivity. Qed.
 
 Ltac red_state :=
-  unfold set_cpc, set_rpc, set_pool, set_pools, set_hplock, set_relset, set_rtasks, set_next_rid, set_clients, set_mcancel,
-         set_creq, set_next_cid, set_copen, set_ckey, set_err, set_hlock, set_cwait, set_ready, set_busy, set_hwaiters;
-  cbn [pools hplock relset rtasks next_rid clients mcancel creq next_cid copen ckey err ready busy hlock cwait hwaiters].
+  cbv beta iota delta [set_cpc set_rpc set_pool set_pools set_hplock set_relset set_rtasks set_next_rid set_clients set_mcancel
+         set_creq set_next_cid set_copen set_ckey set_err set_hlock set_cwait set_ready set_busy set_hwaiters
+         pools hplock relset rtasks next_rid clients mcancel creq next_cid copen ckey err ready busy hlock cwait hwaiters].
+Ltac state_eq := red_state; rewrite ?aset_aset; repeat f_equal; try (first [reflexivity | eassumption | symmetry; eassumption]).
 Ltac aget_now := red_state; rewrite ?aset_aset; apply aget_aset_same.
 
 Section NF.
@@ -54,7 +55,7 @@ Proof.
   intros HL HP. unfold finally_dec. rewrite (acquire_hp_free _ _ HL).
   unfold run_dec. cbn [pools set_hplock]. rewrite HP.
   rewrite release_hp_held by reflexivity.
-  unfold a_dec. red_state. rewrite HL. reflexivity.
+  unfold a_dec. state_eq.
 Qed.
 
 (* HostPool.acquire's loop + the caller's finally, from a state with everything free *)
@@ -80,6 +81,21 @@ Definition a_loop (s : state) (c : cli) (k : key) (pk : cid) : option state :=
       end
   end.
 
+(* the tail of a successful HostPool.acquire: release the host lock, set connection.key, the caller's finally *)
+Lemma got_tail s1 c k hp1 x :
+  hplock s1 = free_lock -> aget (pools s1) k = Some hp1 -> hlock hp1 = held ->
+  finally_dec (set_ckey (release s1 (Some k)) (upd (ckey (release s1 (Some k))) x k)) c k (Some x) =
+  set_cpc (set_ckey (set_pool s1 k (mkHP (ready hp1) (busy hp1) free_lock (cwait hp1) (hwaiters hp1 - 1)))
+                    (upd (ckey s1) x k)) c (C_holding k x).
+Proof.
+  intros HL HP HH. rewrite (release_k_held s1 k hp1 HP HH).
+  change (ckey (set_pool s1 k (set_hlock hp1 free_lock))) with (ckey s1).
+  rewrite (finally_dec_nf _ c k (set_hlock hp1 free_lock) (Some x)).
+  - unfold a_dec. state_eq.
+  - exact HL.
+  - red_state. apply aget_aset_same.
+Qed.
+
 Lemma run_loop_nf s c k hp pk :
   hplock s = free_lock -> aget (pools s) k = Some hp -> hlock hp = free_lock ->
   run_loop M (set_pool s k (set_hlock hp held)) c k pk = a_loop s c k pk.
@@ -88,15 +104,18 @@ Proof.
   cbn [ready set_hlock busy cwait hwaiters].
   destruct (ready hp) as [|r0 rr] eqn:ER.
   - destruct (length (busy hp) <? M) eqn:EB.
-    + erewrite release_k_held; [|aget_now|reflexivity].
-      erewrite finally_dec_nf; [|exact HL|aget_now].
-      red_state. rewrite ?aset_aset, ER. reflexivity.
+    + cbv zeta.
+      change (next_cid (set_pool s k (set_hlock hp held))) with (next_cid s).
+      change (copen (set_pool s k (set_hlock hp held))) with (copen s).
+      rewrite (set_pool_pool s k).
+      f_equal. etransitivity; [eapply got_tail; [exact HL| red_state; apply aget_aset_same | reflexivity]|].
+      state_eq.
     + erewrite release_k_held; [|apply aget_set_pool|reflexivity].
-      rewrite !(set_pool_pool s k), aget_set_pool, !(set_pool_pool s k). cbn. rewrite ER, HF. reflexivity.
+      rewrite !(set_pool_pool s k), aget_set_pool, !(set_pool_pool s k). state_eq.
   - destruct (mem pk (r0 :: rr)) eqn:EM; [|reflexivity].
-    erewrite release_k_held; [|aget_now|reflexivity].
-    erewrite finally_dec_nf; [|exact HL|aget_now].
-    red_state. rewrite ?aset_aset. reflexivity.
+    rewrite (set_pool_pool s k).
+    f_equal. etransitivity; [eapply got_tail; [exact HL| apply aget_set_pool | reflexivity]|].
+    state_eq.
 Qed.
 
 Lemma host_acquire_nf s c k hp pk :
@@ -126,8 +145,8 @@ Proof.
                        | None => set_pool (set_hplock s held) k new_hpool end) None = a_reg s k).
   { unfold a_reg, hp_reg. destruct (aget (pools s) k);
       (rewrite release_hp_held by reflexivity);
-      unfold set_pool, set_pools, set_hplock; cbn; rewrite HL; reflexivity. }
-  rewrite E. apply host_acquire_nf.
+      state_eq. }
+  rewrite E. apply host_acquire_nf with (hp := hp_reg (aget (pools s) k)).
   - exact HL.
   - apply aget_set_pool.
   - apply hp_reg_free. exact HF.
@@ -141,10 +160,11 @@ Lemma fail_locked_nf s c k hp :
   hplock s = free_lock -> aget (pools s) k = Some hp -> hlock hp = free_lock ->
   fail_locked (set_pool s k (set_hlock hp held)) c k = a_fail s c k hp.
 Proof.
-  intros HL HP HF. unfold fail_locked. rewrite aget_set_pool.
-  erewrite release_k_held; [|aget_now|reflexivity].
-  erewrite finally_dec_nf; [|exact HL|aget_now].
-  unfold a_dec, a_fail. red_state. rewrite ?aset_aset. reflexivity.
+  intros HL HP HF. unfold fail_locked. rewrite aget_set_pool. rewrite (set_pool_pool s k).
+  erewrite release_k_held; [|apply aget_set_pool|reflexivity].
+  rewrite (set_pool_pool s k).
+  erewrite finally_dec_nf; [|exact HL|apply aget_set_pool].
+  unfold a_dec, a_fail. rewrite (set_pool_pool s k). reflexivity.
 Qed.
 
 (* a parked client resumes (notified, or cancelled): Condition.wait's re-acquire takes the fast path *)
@@ -169,11 +189,9 @@ Proof.
   intros HP HF HM. unfold rel_start. rewrite HP. rewrite (acquire_k_free _ _ _ _ HP HF).
   unfold run_rel. change (ckey (set_pool s (ckey s x) (set_hlock hp held)) x) with (ckey s x).
   rewrite aget_set_pool. cbn [busy set_hlock]. rewrite HM.
-  erewrite release_k_held; [|aget_now|reflexivity].
-  assert (E : forall a b, set_pool (set_pool (set_pool s (ckey s x) a) (ckey s x) b) (ckey s x) (set_hlock b free_lock)
-              = set_pool s (ckey s x) (set_hlock b free_lock)).
-  { intros. red_state. now rewrite !aset_aset. }
-  rewrite E. reflexivity.
+  rewrite (set_pool_pool s (ckey s x)).
+  erewrite release_k_held; [|apply aget_set_pool|reflexivity].
+  rewrite (set_pool_pool s (ckey s x)). reflexivity.
 Qed.
 
 (* HostPool.clean of k + the deletion test *)
